@@ -155,7 +155,66 @@ func genFrame(r *hlib.Rng, need []string) (qframe.QFrame, []genCol) {
 	if qf.Err != nil {
 		panic(fmt.Sprintf("genFrame: %v", qf.Err))
 	}
+	// every other family takes the physical dump of this frame as its input: make sure here that New stored
+	// exactly the supplied values (otherwise a defect of the constructors would be invisible to them)
+	if msg := newHolds(qf, cols); msg != "" {
+		panic("New does not hold the supplied values: " + msg)
+	}
 	return qf, cols
+}
+
+// newHolds compares a frame just built by New with the generated data, column by column (physical order).
+func newHolds(qf qframe.QFrame, cols []genCol) string {
+	d := qframe.VerifDump(qf)
+	if len(d.Columns) != len(cols) {
+		return fmt.Sprintf("%d columns for %d supplied", len(d.Columns), len(cols))
+	}
+	for i, c := range cols {
+		dc := d.Columns[i]
+		if dc.Name != c.name {
+			return "column " + c.name + " is at another position"
+		}
+		switch c.kind {
+		case "int":
+			if fmt.Sprint(dc.Ints) != fmt.Sprint(c.ints) {
+				return "int column " + c.name
+			}
+		case "float":
+			if len(dc.Floats) != len(c.floats) {
+				return "float column " + c.name
+			}
+			for j := range c.floats {
+				if math.Float64bits(dc.Floats[j]) != math.Float64bits(c.floats[j]) {
+					return fmt.Sprintf("float column %s row %d", c.name, j)
+				}
+			}
+		case "bool":
+			if fmt.Sprint(dc.Bools) != fmt.Sprint(c.bools) {
+				return "bool column " + c.name
+			}
+		case "string":
+			if len(dc.Strings) != len(c.strs) {
+				return "string column " + c.name
+			}
+			for j := range c.strs {
+				a, b := dc.Strings[j], c.strs[j]
+				if (a == nil) != (b == nil) || (a != nil && *a != *b) {
+					return fmt.Sprintf("string column %s row %d", c.name, j)
+				}
+			}
+		case "enum":
+			if len(dc.Ranks) != len(c.strs) {
+				return "enum column " + c.name
+			}
+			for j := range c.strs {
+				b := c.strs[j]
+				if (dc.Ranks[j] == 255) != (b == nil) || (b != nil && (int(dc.Ranks[j]) >= len(dc.Values) || dc.Values[dc.Ranks[j]] != *b)) {
+					return fmt.Sprintf("enum column %s row %d", c.name, j)
+				}
+			}
+		}
+	}
+	return ""
 }
 
 // derive scrambles the row index with 0-3 index-changing operations so that physical and logical order differ.
